@@ -2,7 +2,6 @@ package gen
 
 import (
 	"fmt"
-	"math/big"
 
 	"github.com/dominant-strategies/go-quai/common"
 	"github.com/dominant-strategies/go-quai/core/types"
@@ -110,22 +109,4 @@ func TokenChoiceSet(t *rapid.T, label string) *types.TokenChoiceSet {
 		s[idx] = types.TokenChoices{Quai: U64(t, fmt.Sprintf("%s_q%d", label, i)), Qi: U64(t, fmt.Sprintf("%s_qi%d", label, i)), Diff: Big(t, fmt.Sprintf("%s_d%d", label, i), 256)}
 	}
 	return &s
-}
-
-func Betas(t *rapid.T, label string) *types.Betas {
-	f := func(l string) *big.Float {
-		switch rapid.IntRange(0, 4).Draw(t, l+"_k") {
-		case 0:
-			return new(big.Float).SetInt64(0)
-		case 1:
-			return new(big.Float).SetFloat64(-0.5)
-		case 2:
-			return new(big.Float).SetPrec(256).SetInt(Big(t, l+"_int", 200))
-		default:
-			v := new(big.Float).SetPrec(uint(rapid.IntRange(24, 300).Draw(t, l+"_prec")))
-			v.SetFloat64(rapid.Float64Range(-1e9, 1e9).Draw(t, l))
-			return v
-		}
-	}
-	return types.NewBetas(f(label+"_b0"), f(label+"_b1"))
 }
